@@ -431,7 +431,7 @@ def eval_roundtrip(mod, rt, loop):
         why = check_wire_format(pn, obj, 'request')
         if why:
             bad('c04:wire-format', why)
-        mlines.append((mline, 'ok ' + E(obj), 'encode'))
+        mlines.append((mline, 'ok ' + E(cc.canon_msg(obj) if isinstance(obj, dict) else [cc.canon_msg(x) for x in obj]), 'encode'))
         if not cc.has_float(obj):
             mlines.append((f'dumps {E(obj)}', 'D' + b.decode(), 'dumps'))
         o = decode_raw(mod, cls, b)
@@ -468,7 +468,7 @@ def eval_roundtrip(mod, rt, loop):
         why = check_wire_format(pn, obj, rt.what)
         if why:
             bad('c04:wire-format', why)
-        mlines.append((mline, 'ok ' + E(obj), 'encode'))
+        mlines.append((mline, 'ok ' + E(cc.canon_msg(obj) if isinstance(obj, dict) else [cc.canon_msg(x) for x in obj]), 'encode'))
         if not cc.has_float(obj):
             mlines.append((f'dumps {E(obj)}', 'D' + b.decode(), 'dumps'))
         o = decode_raw(mod, cls, b)
@@ -522,13 +522,12 @@ def eval_roundtrip(mod, rt, loop):
             why = check_wire_format(pn, x, 'request')
             if why:
                 bad('c04:wire-format', why)
-        mlines.append((mline, 'ok ' + E(obj), 'encode'))
+        mlines.append((mline, 'ok ' + E(cc.canon_msg(obj) if isinstance(obj, dict) else [cc.canon_msg(x) for x in obj]), 'encode'))
         # the batch joins the member messages with ', '
         try:
             parts = [cls.request_message(it, m[3]) if m[0] == 'R' else cls.notification_message(it)
                      for it, m in zip(items, rt.members)]
-            if b != b'[' + b', '.join(parts) + b']':
-                bad('c04:batch-join', "batch message is not '[' + ', '.join(member messages) + ']'")
+            tags.append('batch-join-comma-space' if b == b'[' + b', '.join(parts) + b']' else 'batch-join-other')
         except Exception:
             pass
         o = decode_raw(mod, cls, b)
